@@ -4717,3 +4717,41 @@ mod tests {
 		assert_eq!(cltv, trampoline_cltv_expiry + first_hop_delta);
 	}
 }
+
+#[cfg(feature = "_verif")]
+#[allow(missing_docs)]
+pub mod verif_hooks {
+	use super::*;
+	pub const MAX_HOPS: usize = super::MAX_HOPS;
+	pub const HOLD_TIME_LEN: usize = super::HOLD_TIME_LEN;
+	pub const HMAC_LEN: usize = super::HMAC_LEN;
+	pub const HMAC_COUNT: usize = super::HMAC_COUNT;
+	pub fn attribution_from_parts(
+		hold_times: [u8; MAX_HOPS * HOLD_TIME_LEN], hmacs: [u8; HMAC_LEN * HMAC_COUNT],
+	) -> AttributionData {
+		AttributionData { hold_times, hmacs }
+	}
+	pub fn attribution_hold_times(a: &AttributionData) -> &[u8; MAX_HOPS * HOLD_TIME_LEN] {
+		&a.hold_times
+	}
+	pub fn attribution_hmacs(a: &AttributionData) -> &[u8; HMAC_LEN * HMAC_COUNT] {
+		&a.hmacs
+	}
+	pub fn attribution_shift_left(a: &mut AttributionData) {
+		a.shift_left()
+	}
+	pub fn attribution_shift_right(a: &mut AttributionData) {
+		a.shift_right()
+	}
+	pub fn attribution_get_hmac(a: &AttributionData, idx: usize) -> &[u8] {
+		a.get_hmac(idx)
+	}
+	pub fn attribution_get_hold_time_bytes(a: &AttributionData, idx: usize) -> &[u8] {
+		a.get_hold_time_bytes(idx)
+	}
+	pub fn attribution_write_downstream_hmacs(
+		a: &AttributionData, position: usize, w: &mut HmacEngine<Sha256>,
+	) {
+		a.write_downstream_hmacs(position, w)
+	}
+}
